@@ -18,6 +18,7 @@ import os
 import random
 import re
 import sys
+import traceback
 
 from . import scen as S
 from . import world as W
@@ -142,7 +143,7 @@ PSETS = {
         ["*\u00e9*"],
         ["sp ace/fi*", "plain.txt"],
     ],
-    "case": [["clip.mov"], ["Reel_A"], ["reel_a/"]],
+    "case": [["clip.mov"], ["Reel_A"], ["reel_a/"], ["CLIP.MOV", "clip.mov", "reel_a", "Reel_A"]],
     "lookalike": [[], [".DS_Store"], ["my.DS_Store"], ["ascmhl_x"], ["ascmhl", "sub"]],
     "emptyfolder": [[], ["*.txt"]],
     "onlydirs": [["E/"], ["F/G/"], ["G"], ["F/"]],
@@ -269,11 +270,13 @@ class Ctx:
 
     n = 0
     dhcalls = 0
+    last = None
 
     def __init__(self, run, cid, spec, holder="t"):
         self.run, self.cid = run, cid
         self.tmp = os.path.join(run.tmp, f"w{Ctx.n}")
         Ctx.n += 1
+        Ctx.last = self
         self.root = os.path.join(self.tmp, holder)
         W.build(self.root, spec)
         self.model = {}  # absolute history root -> expected pattern list of its latest generation
@@ -364,8 +367,8 @@ class Ctx:
                 exp_mism.add(rel)
         return exp_new, exp_missing, tol_missing, exp_mism
 
-    def check_opened(self, at, spec, opened, wclass, args):
-        seen = set()
+    def check_opened(self, at, spec, opened, wclass, args, skip=()):
+        seen = set(skip)
         for a in opened:
             rel = os.path.relpath(os.path.normpath(a), at)
             if rel.startswith("..") or rel == "." or "ascmhl" in rel.split(os.sep) or rel in seen:
@@ -453,6 +456,7 @@ class Ctx:
                 else:
                     h = W.owner_of(e, roots_vis)
                     exp[h][os.path.relpath(e, h) if h else e] = k
+        flagged = set()
         for h in hist:
             got = {}
             for mf in new[h]:
@@ -472,6 +476,7 @@ class Ctx:
                         for t in targets:
                             if outer.startswith(os.path.normpath(t) + os.sep) and status(os.path.relpath(outer, t), spec) == "vis":
                                 w = "sf/pattern-not-matched-relative-to-history-root"
+                    flagged.add(outer)
                     self.bad(f"history '{h or '.'}': {outer!r} is matched by the effective patterns {eff} but is recorded in {os.path.basename(new[h][0])}", w, args=args)
                 elif st == "vis":
                     self.bad(f"history '{h or '.'}': unexpected record {outer!r}", f"{wc}/extra-record", args=args)
@@ -491,20 +496,27 @@ class Ctx:
                                 self.bad(
                                     f"history '{h or '.'}' {os.path.basename(mf)}: directory hash of {d!r} ({f}) is {e['digest']}/{e['structure']}, "
                                     f"the non-ignored entries under {eff} give {oracle[d][0]}/{oracle[d][1]}",
-                                    "create/dirhash-includes-ignored" if self._dh(at, DEFAULT, f).get(d) == (e["digest"], e["structure"]) else "create/dirhash",
+                                    "create/dirhash-includes-ignored" if self._dh_all(at, f).get(d) == (e["digest"], e["structure"]) else "create/dirhash",
                                     args=args,
                                 )
         for r in roots:
             if status(r, spec) == "ign" and new.get(r):
                 self.bad(f"nested history {r!r} is matched by {eff} but received generation {os.path.basename(new[r][0])}", f"{wc}/ignored-history-written", args=args)
         # ---- exclusion: never hashed, not new / missing / altered
-        self.check_opened(at, spec, opened, f"{wc}/ignored-opened", args)
+        self.check_opened(at, spec, opened, f"{wc}/ignored-opened", args, skip=flagged)
         _, got_missing, got_mism = parse_report(out)
         if sf:
             exp_missing, tol_missing = set(), set()
             exp_mism = {p for p in exp_mism if any(os.path.normpath(os.path.join(h, q)) == p for h in exp for q in exp[h])}
         self.compare_reports(at, spec, "create" if not sf else "sf", args, code, out, None, set(), got_missing, exp_missing, tol_missing, got_mism, exp_mism)
         return code
+
+    def _dh_all(self, at, f):
+        """directory hashes over everything but the defaults (only used to label a mismatch)"""
+        try:
+            return W.dir_hashes(at, DEFAULT, f)
+        except OSError:
+            return {}
 
     def _dh(self, at, eff, f):
         key = (at, tuple(eff), f, self.steps)
@@ -748,6 +760,7 @@ def chain_script():
         dict(p=[NFD, NFC], how="ii"),
         dict(p=["line\u2028sep.txt"], how="i", fmts=["md5", "md5"]),
         dict(p=everything + ["zero.bin"], how="iilong"),
+        dict(p=["mov", "tmp", "DS_Store"], how="split"),  # substrings of patterns that are already there
         dict(p=[], spell="dot"),
     ]
 
@@ -787,30 +800,48 @@ def random_script(rnd, tree, length):
     return out
 
 
+class Case:
+    """one case: counts it, and turns a break-down of the scenario or of the oracle (e.g. the tool left a world that can
+    no longer be read) into a reported violation instead of a crash of the driver"""
+
+    def __init__(self, run, cid, key, sample):
+        self.run, self.cid, self.key, self.sample = run, cid, key, sample
+        Ctx.last = None
+
+    def __enter__(self):
+        return self
+
+    def __exit__(self, et, ev, tb):
+        if et is not None and issubclass(et, Exception):
+            where = traceback.extract_tb(tb)[-1]
+            self.run.violation(self.cid, f"the case could not be evaluated: {ev!r} at {os.path.basename(where.filename)}:{where.lineno}", "driver/exception")
+        c = Ctx.last
+        self.run.case(self.cid, self.key, sample=dict(self.sample, case=self.cid, commands=c.steps if c else 0))
+        return et is None or issubclass(et, Exception)
+
+
 def main():
     run = Run(
         "C12",
         rule="case = one world (tree, nested-history placement, holder folder) driven through a script of commands; "
         "families: excl (pattern set x delivery x root spelling x {patterns in generation 1, patterns after everything was recorded}), "
-        "chain (>= 13 generations incl. -n, -sf, failed, other formats, negation), nested (child with own patterns, parent runs, "
+        "chain (14 generations incl. -n, -sf, failed, other formats, negation), nested (child with own patterns, parent runs, "
         "child run alone), sf, neg (negation added later), holder (root below a folder named like a pattern), random (seeded scripts); "
         "non-trivial = distinct (family, tree, placement, pattern set, delivery, spelling, flow) with a user pattern or a default-ignored entry; "
         "every new manifest, every printed report line, every printed directory hash and every opened file is compared with the oracle",
         bound="11 trees (<= 15 entries, depth <= 4; prefix siblings, case pairs, spaces, NFC/NFD, XML-special, U+2028, symlinks incl. dangling, "
-        "empty files/folders/tree, files of 2^20-1 / 2^20 / 2^20+1 bytes), <= 3 nested histories (3 levels), 82 pattern sets of <= 3 patterns "
+        "empty files/folders/tree, files of 2^20-1 / 2^20 / 2^20+1 bytes), <= 3 nested histories (3 levels), 83 pattern sets of <= 3 patterns "
         "(base names, globs ? * ** [], trailing-slash, anchored, inner slash, negation), 8 deliveries (-i, --ignore, repeated, -ii, --ignore_spec "
-        "with blank lines / no final newline, mixed, relative -ii, split), 6 root spellings, <= 13 generations scripted (quick) / <= 20 random (thorough)",
+        "with blank lines / no final newline, mixed, relative -ii, split), 6 root spellings, <= 14 generations scripted (quick) / <= 20 random (thorough)",
     )
     thorough = run.tier == "thorough"
     rnd = random.Random(run.seed)
     fsets = S.format_sets(run.tier)
     k = run.seed
 
-    def finish_case(c, cid, key, sample):
-        run.case(cid, key, sample=dict(sample, case=cid, commands=c.steps))
-
     # ---------------------------------------------------------------- excl
     for tree in TREES:
+        has_default = any(os.path.basename(p.rstrip("/")) == ".DS_Store" for p in TREES[tree])
         for pi, pset in enumerate(PSETS[tree]):
             plans = []
             nests = list(range(len(NESTED[tree])))
@@ -822,7 +853,8 @@ def main():
                                 continue
                             plans.append((ni, how, SPELLS[(k + hi + ni + pi) % len(SPELLS)], flow, fsets[(k + pi + hi) % len(fsets)]))
             else:
-                # every pattern set once flat-or-nested (rotating), and a second time on another placement with the other flow
+                # every pattern set once (placement, delivery, spelling, flow and formats rotate), every other one a second
+                # time on another placement with the other flow
                 ni = (k + pi) % len(nests)
                 plans.append((ni, HOWS[(k + pi) % len(HOWS)], SPELLS[(k + pi) % len(SPELLS)], ("g1", "late")[(k + pi) % 2], fsets[(k + pi) % len(fsets)]))
                 if len(nests) > 1 and pi % 2 == 0:
@@ -832,21 +864,23 @@ def main():
                 cid = f"excl/{tree}/n{ni}/p{pi}/{how}/{spell}/{flow}"
                 if not run.want(cid):
                     continue
-                c = excl_flow(run, cid, tree, NESTED[tree][ni], pset, how, spell, flow, fmts, full=thorough or pi % 3 == 0)
-                has_default = any(os.path.basename(p.rstrip("/")) == ".DS_Store" for p in TREES[tree])
-                finish_case(c, cid, ("excl", tree, ni, tuple(pset), how, spell, flow) if (pset or has_default) else None, {"patterns": pset, "formats": fmts})
+                key = ("excl", tree, ni, tuple(pset), how, spell, flow) if (pset or has_default) else None
+                with Case(run, cid, key, {"patterns": pset, "formats": fmts}):
+                    excl_flow(run, cid, tree, NESTED[tree][ni], pset, how, spell, flow, fmts, full=thorough or pi % 3 == 0)
     # ---------------------------------------------------------------- holder: the root lies below / is named like a pattern
     for hi, (holder, pset) in enumerate([("skip/t", ["skip", "*.txt"]), ("ascmhl/t", ["deep"]), ("deep/A", ["A", "deep"]), ("x.txt/t", ["*.txt", "t"])]):
         for flow in ("g1", "late") if thorough else (("g1", "late")[hi % 2],):
             cid = f"holder/{holder.replace('/', '+')}/{flow}"
             if not run.want(cid):
                 continue
-            c = excl_flow(run, cid, "deep", [["A"], [], [], ["A/deep", "A"]][hi], pset, HOWS[hi], SPELLS[hi], flow, ["md5"], holder=holder)
-            finish_case(c, cid, ("holder", holder, flow), {"patterns": pset})
+            with Case(run, cid, ("holder", holder, flow), {"patterns": pset}):
+                excl_flow(run, cid, "deep", [["A"], [], [], ["A/deep", "A"]][hi], pset, HOWS[hi], SPELLS[hi], flow, ["md5"], holder=holder)
     # ---------------------------------------------------------------- chain: one history, many generations
     for tree, nested in [("media", [])] + ([("media", ["Audio"])] if thorough else []):
         cid = f"chain/{tree}/{'+'.join(nested) or 'flat'}"
-        if run.want(cid):
+        if not run.want(cid):
+            continue
+        with Case(run, cid, ("chain", tree, tuple(nested)), {"generations": len(chain_script())}):
             c = Ctx(run, cid, TREES[tree])
             for nr in nested:
                 c.create(os.path.join(c.root, nr), checked=False)
@@ -856,7 +890,6 @@ def main():
             c.all_reports(c.root, (), "i", "slash")
             c.mutate_visible(c.root, c.effective(c.root, []))
             c.all_reports(c.root, ["*.zzz"], "ii", "rel")
-            finish_case(c, cid, ("chain", tree, tuple(nested)), {"generations": len(W.manifests(c.root))})
     # ---------------------------------------------------------------- nested: child with own patterns, parent runs, child alone
     plans = [
         ("deep", ["A"], ["*.bin"], ["/a.txt"], ["B/"], "i", True),
@@ -872,22 +905,22 @@ def main():
             cid = f"nested/{tree}/{'+'.join(nested).replace('/', '_')}/{how}/{variant}"
             if not run.want(cid):
                 continue
-            c = Ctx(run, cid, TREES[tree])
-            root = c.root
-            for j, nr in enumerate(nested):
-                c.create(os.path.join(root, nr), ["*.zzz", "own" + str(j)] if (own and j == 0) or variant else [], checked=False)
-            c.create(root, P, how, SPELLS[ti % len(SPELLS)])
-            child = os.path.join(root, nested[-1])
-            c.create(child, Q, "i", SPELLS[(ti + 1) % len(SPELLS)])
-            c.create(root, [], "i")
-            c.all_reports(root, dh=False)
-            c.create(root, P2, "ii", "rel", extra=["-n"] if variant else ())
-            c.all_reports(root, dh=False)
-            c.all_reports(child, dh=False)
-            c.mutate_ignored(root, c.effective(root, []))
-            c.all_reports(root, dh=False)
-            c.create(root, [], "i", "dot")
-            finish_case(c, cid, ("nested", tree, tuple(nested), how, variant), {"patterns": [P, Q, P2]})
+            with Case(run, cid, ("nested", tree, tuple(nested), how, variant), {"patterns": [P, Q, P2]}):
+                c = Ctx(run, cid, TREES[tree])
+                root = c.root
+                for j, nr in enumerate(nested):
+                    c.create(os.path.join(root, nr), ["*.zzz", "own" + str(j)] if (own and j == 0) or variant else [], checked=False)
+                c.create(root, P, how, SPELLS[ti % len(SPELLS)])
+                child = os.path.join(root, nested[-1])
+                c.create(child, Q, "i", SPELLS[(ti + 1) % len(SPELLS)])
+                c.create(root, [], "i")
+                c.all_reports(root, dh=False)
+                c.create(root, P2, "ii", "rel", extra=["-n"] if variant else ())
+                c.all_reports(root, dh=False)
+                c.all_reports(child, dh=False)
+                c.mutate_ignored(root, c.effective(root, []))
+                c.all_reports(root, dh=False)
+                c.create(root, [], "i", "dot")
     # ---------------------------------------------------------------- sf: create -sf folder / file with recorded and new patterns
     sf_plans = [
         ("deep", [], [], ["A"], ["*.txt"], "i", False),
@@ -908,17 +941,17 @@ def main():
         cid = f"sf/{si}/{tree}/{how}"
         if not run.want(cid):
             continue
-        c = Ctx(run, cid, TREES[tree])
-        root = c.root
-        for nr in nested:
-            c.create(os.path.join(root, nr), checked=False)
-        if rec_p:
-            c.create(root, rec_p, "i")
-        c.create(root, new_p, how, "rel" if rel else "abs", sf=targets, sf_rel=rel)
-        c.create(root, [], "i", sf=targets[:1])
-        c.create(root, [], "i")
-        c.all_reports(root, dh=False)
-        finish_case(c, cid, ("sf", si), {"patterns": [rec_p, new_p], "targets": targets})
+        with Case(run, cid, ("sf", si), {"patterns": [rec_p, new_p], "targets": targets}):
+            c = Ctx(run, cid, TREES[tree])
+            root = c.root
+            for nr in nested:
+                c.create(os.path.join(root, nr), checked=False)
+            if rec_p:
+                c.create(root, rec_p, "i")
+            c.create(root, new_p, how, "rel" if rel else "abs", sf=targets, sf_rel=rel)
+            c.create(root, [], "i", sf=targets[:1])
+            c.create(root, [], "i")
+            c.all_reports(root, dh=False)
     # ---------------------------------------------------------------- neg: a negation pattern arrives in a later generation
     neg_plans = [
         ("media", ["*.mov"], ["!x.mov"], "i"),
@@ -930,20 +963,20 @@ def main():
         cid = f"neg/{gi}/{tree}"
         if not run.want(cid):
             continue
-        c = Ctx(run, cid, TREES[tree])
-        root = c.root
-        if gi % 2:
-            c.create(root, [], "i")
-        c.create(root, P, "i")
-        c.mutate_ignored(root, c.effective(root, []))
-        c.all_reports(root)
-        c.all_reports(root, N, how, "slash")
-        c.create(root, N, how)
-        c.all_reports(root)
-        c.create(root, [], "i", "dot")
-        c.mutate_visible(root, c.effective(root, []))
-        c.all_reports(root)
-        finish_case(c, cid, ("neg", gi), {"patterns": [P, N]})
+        with Case(run, cid, ("neg", gi), {"patterns": [P, N]}):
+            c = Ctx(run, cid, TREES[tree])
+            root = c.root
+            if gi % 2:
+                c.create(root, [], "i")
+            c.create(root, P, "i")
+            c.mutate_ignored(root, c.effective(root, []))
+            c.all_reports(root)
+            c.all_reports(root, N, how, "slash")
+            c.create(root, N, how)
+            c.all_reports(root)
+            c.create(root, [], "i", "dot")
+            c.mutate_visible(root, c.effective(root, []))
+            c.all_reports(root)
     # ---------------------------------------------------------------- random scripts (seeded)
     for ri in range(12 if thorough else 2):
         tree = ["media", "deep", "prefix", "levels"][ri % 4]
@@ -952,14 +985,14 @@ def main():
         cid = f"random/{run.seed}/{ri}"
         if not run.want(cid):
             continue
-        c = Ctx(run, cid, TREES[tree])
-        for nr in nested:
-            c.create(os.path.join(c.root, nr), checked=False)
-        run_script(c, c.root, script)
-        c.all_reports(c.root, dh=True)
-        c.mutate_ignored(c.root, c.effective(c.root, []))
-        c.all_reports(c.root, dh=True)
-        finish_case(c, cid, ("random", run.seed, ri), {"tree": tree, "nested": nested, "script": [(s["p"], s["how"]) for s in script][:6]})
+        with Case(run, cid, ("random", run.seed, ri), {"tree": tree, "nested": nested, "script": [(s["p"], s["how"]) for s in script][:6]}):
+            c = Ctx(run, cid, TREES[tree])
+            for nr in nested:
+                c.create(os.path.join(c.root, nr), checked=False)
+            run_script(c, c.root, script)
+            c.all_reports(c.root, dh=True)
+            c.mutate_ignored(c.root, c.effective(c.root, []))
+            c.all_reports(c.root, dh=True)
     run.finish()
 
 
